@@ -47,7 +47,10 @@ Corpus == {
   <<"seq", <<1, 1>>, El("a", "string", 1, 1), El("b", "string", 0, 1), CC("choice", <<1, U>>, 0), 1, "model">>,
   <<"choice", <<1, U>>, El("a", "string", 1, 1), BGrp("choice", <<1, 1>>, 1), CC("seq", <<0, 1>>, 1), 1, "model">>,
   <<"seq", <<1, 1>>, El("a", "EMPTY", 0, 1), BGrp("seq", <<0, U>>, 0), Seq2("choice", <<1, U>>, 1), 7, "model">>,
-  <<"seq", <<1, 1>>, El("a", "string", 1, 1), El("b", "string", 0, 1), [k |-> "none"], 8, "model">> }
+  <<"seq", <<1, 1>>, El("a", "string", 1, 1), El("b", "string", 0, 1), [k |-> "none"], 8, "model">>,
+  \* a REPEATING choice nested directly in a choice that occurs once: (a | (b | e)* | ...)
+  <<"choice", <<1, 1>>, El("a", "string", 1, 1), BGrp("choice", <<0, U>>, 1), [k |-> "none"], 1, "model">>,
+  <<"choice", <<0, 1>>, El("a", "string", 1, 1), BGrp("choice", <<1, U>>, 1), Seq2("choice", <<0, U>>, 1), 3, "model">> }
 InitCorpus == \E c \in Corpus, i \in 0..MaxDocIdx : parts = Append(c, i)
 
 Root == Grp(parts[1], parts[2][1], parts[2][2], <<parts[3], parts[4]>> \o (IF parts[5].k = "none" THEN <<>> ELSE <<parts[5]>>))
